@@ -84,4 +84,12 @@ theorem C02_busy_program_does_nothing (p : List Program.Call) (h : Program.busyO
     Program.abstract p = [.lockBusy] ∧ (∀ c ∈ p, Program.mutatesLog c = false ∧ Program.readsLog c = false) :=
   Program.busyOK_abstract p h
 
+
+/-- the lock is one file: no program the predicates accept (writer, refused writer, reader) gives the name `.ergo/lock` to another file, unlinks
+    or truncates it — a missing lock file is created in place.  (The process model has one `holder`; this is what makes that a model of `flock`
+    on a *name*.) -/
+theorem C02_lock_file_keeps_its_identity (p : List Program.Call)
+    (h : Program.writerOK p = true ∨ Program.busyOK p = true ∨ Program.readerOK p = true) :
+    ∀ c ∈ p, Program.mutatesLock c = false :=
+  Program.lock_identity_kept p h
 end Ergo
